@@ -75,6 +75,7 @@ func (c *lockCtx) lockedAt(fn *ssa.Function, at ssa.Instruction) (bool, []ssa.In
 
 func checkC15(e *Engine, r *Report) {
 	r.Rules = []string{
+		"R7 lock order: over all repository functions, with per-function summaries (locks acquired transitively, locks still held on return, locks released), an edge A→B is recorded wherever B may be acquired while A may be held; the edge relation is acyclic (no lock-order inversion between the resource-manager lock, the metrics gatherer lock, the instrumentation lock, …)",
 		"R7 lockset: every use of resmgr.cache / resmgr.policy / resmgr.control / nriPlugin.byname in pkg/resmgr code reachable from an NRI handler, from updateConfig/reconfigure or from Stop happens with the resmgr lock held on all paths (helpers get a requires-lock summary discharged at every call site, up to the entry points)",
 		"R7 no-self-deadlock: nothing called from a handler re-acquires the (non re-entrant) lock; every Lock is released on all paths (defer Unlock)",
 		"R3 single entry: cache.Cache / policy backends are called only from the resource manager, the policy layer, the policies and the controllers; goroutines and timers spawned in those packages reach no cache mutator, policy method or container setter",
@@ -287,6 +288,7 @@ func checkC15(e *Engine, r *Report) {
 			}
 		})
 	}
+	checkLockOrder(e, r, nil)
 	r.MinInstances("functions taking the resmgr lock", len(lockers), 4)
 	var lockerList []*ssa.Function
 	for f := range lockers {
